@@ -28,7 +28,7 @@ def startfault(n=60, tags="verif"):
     """engine / client starts in which one descriptor-creating or registering system call fails; whatever the
     framework created must be closed again when Run / Start returns.  Server starts are also replayed by the model of
     the start sequence (Model/Start.v, family loopstart: outcome, descriptors created per kind, closes, leftovers,
-    stray closes); client starts and the stop-race cases are judged by the direct oracles only"""
+    stray closes; `run` for servers, `run_client` for clients); the stop-race cases are judged by the direct oracles only"""
     return dict(cmd="drv-loop", variant="startfault" + ("-pollopt" if "poll_opt" in tags else ""), family="loopstart",
                 unix_swap=(LOOP_SWAP_OPT if "poll_opt" in tags else LOOP_SWAP), shrink=False, netns=True, confirm=True,
                 args=["-focus", "startfault", "-n", str(n)], tags=tags, sites=["^fd-leak$", "^fd-not-owned$", "^engine-start$", "^hang$"],
